@@ -9,6 +9,7 @@ COMMON_TRUST = [
 COMMON_ASSUMPTIONS = [
     "machine arithmetic is bounded in both back ends; only specifications use unbounded int",
     "serde / az / f16 feature code is not built and not covered",
+    "Kani compiles /repo with its own pinned nightly toolchain, not the repository's stable toolchain",
 ]
 
 
@@ -24,11 +25,101 @@ def owners(props):
     return out
 
 
+def _mods(prefix, mods, names):
+    return ["%s::%s::%s" % (prefix, m, n) for m in mods for n in names]
+
+
+TFH = ["tofixed::check_tfh_%s" % t for t in ("i8", "i16", "i32", "i64", "i128", "u8", "u16", "u32", "u64", "u128")] + ["tofixed::cover_tfh"]
+FORMS = ["mul_forms", "div_forms", "add_sub_neg_forms", "mul_div_int_forms"]
+REM = ["rem_forms", "rem_int_forms", "div_euclid_forms", "div_euclid_int_forms"]
+CMPX = ["cmp8::" + n for n in ("derived_ops", "x_i8f0_u16f0", "x_i16f3_u8f8", "x_i32f16_u32f0", "x_i8f2_i32f31", "x_u64f0_i8f7",
+                                "x_i64f20_u16f16", "x_i32f0_u64f32", "x_i128f0_u128f0", "x_i128f127_i8f0", "same_type_eq_ord")]
+CMPINT = ["cmp8::" + n for n in ("i8_vs_int_i8", "i8_vs_int_u8", "u8_vs_int_i16", "i8_vs_int_u64", "u8_vs_int_i128", "i8_vs_int_usize", "u8_vs_int_isize")]
+CONVINT = ["conv8::" + n for n in ("i8f_i8", "i8f_u8", "u8f_i8", "u8f_u16", "i8f_i32", "u8f_i64", "i8f_u128", "i8f_i128", "u8f_usize", "i8f_isize")]
+CONVX = ["conv8::" + n for n in ("x_i32f16_i8f4", "x_u8f8_i64f40", "x_i64f60_u16f2", "x_i16f0_u64f48", "x_u32f31_i32f31", "x_i8f7_u8f7", "from_impls", "lossy_from_impls")]
+L9 = ["l%d" % i for i in range(9)]
+F9 = ["f%d" % i for i in range(9)]
+S9 = ["s%d" % i for i in range(9)]
+
 PROPERTIES = {
     "C01": {
         "level": "proof",
         "verus_units": ["arith_widen"],
-        "explanation": "mul_overflow/div_overflow of the 8..64-bit primitives verified against R_mul/R_div with symbolic frac_nbits",
-        "not_covered": [],
+        "kani": _mods("arith8", ["h_i8", "h_u8"], ["mul_overflow_all_fracs", "div_overflow_all_fracs"]),
+        "explanation": "mul_overflow/div_overflow of the 8..64-bit primitives verified (Verus) against R_mul/R_div with symbolic frac_nbits; "
+                       "Kani twins on the 8-bit instantiation",
+        "not_covered": ["128-bit fallback multiply and wide division (arith.rs FallbackHelper, wide_div.rs): not yet under contract"],
+    },
+    "C02": {
+        "level": "proof",
+        "verus_units": ["arith_widen", "nofrac"],
+        "kani": _mods("arith8", ["i4f4", "i0f8", "u4f4", "u0f8"], FORMS) + ["arith8::abs_forms_i8"],
+        "kani_thorough": _mods("arith8", ["i8f0", "u8f0"], FORMS),
+        "explanation": "neg/abs/add/sub/mul_int/div_int in the four overflow forms verified for all ten families (Verus, unit nofrac); "
+                       "mul/div helpers (unit arith_widen); the mul/div forms of fixed_frac! are confirmed by Kani twins on 8-bit layouts",
+        "not_covered": ["checked_/saturating_/wrapping_/overflowing_ mul and div wrappers of fixed_frac! at widths > 8 bit are not yet under a Verus contract (their helper is)"],
+    },
+    "C03": {
+        "level": "proof",
+        "kani": TFH + _mods("cmp8", ["l0", "l4", "l8"], ["i8_vs_i8", "i8_vs_u8", "u8_vs_u8"]) + CMPX + CMPINT
+                + _mods("cmp8", ["f4"], ["i8_vs_f32", "u8_vs_f32", "i8_vs_f64", "u8_vs_f64"])
+                + ["cmp8::float_derived_ops", "cmp8::i32f0_vs_f32", "float::check_kind_f32", "float::check_kind_f64"],
+        "kani_thorough": _mods("cmp8", [l for l in L9 if l not in ("l0", "l4", "l8")], ["i8_vs_i8", "i8_vs_u8", "u8_vs_u8"])
+                + _mods("cmp8", [f for f in F9 if f != "f4"], ["i8_vs_f32", "u8_vs_f32", "i8_vs_f64", "u8_vs_f64"]),
+        "explanation": "to_fixed_helper (all 10 source types, all 507 destination layouts) and to_float_kind (all bit patterns, all layouts) "
+                       "under Kani function contracts; the comparison macro bodies verified on every pair of 8-bit layouts, a sample of "
+                       "cross-width pairs, every primitive integer type and f32/f64 against the exact ordering",
+        "bounded_parts": ["fixed_cmp_fixed / fixed_cmp_int / fixed_cmp_float macro bodies: complete for the instantiated type pairs only "
+                          "(all 8-bit pairs + listed cross-width pairs); other width pairs share the macro body but are not instantiated"],
+    },
+    "C04": {
+        "level": "proof",
+        "kani": TFH + _mods("conv8", ["s0", "s4", "s8"], ["i8_to_i8", "i8_to_u8", "u8_to_i8", "u8_to_u8"]) + CONVINT + CONVX,
+        "kani_thorough": _mods("conv8", [x for x in S9 if x not in ("s0", "s4", "s8")], ["i8_to_i8", "i8_to_u8", "u8_to_i8", "u8_to_u8"]),
+        "explanation": "to_fixed_helper under contract for all layouts; FromFixed/ToFixed policies verified on all pairs of 8-bit layouts, "
+                       "all 12 integer types, listed cross-width pairs and From/LossyFrom instances",
+        "bounded_parts": ["FromFixed/ToFixed policy glue and From/LossyFrom: complete for the instantiated type pairs only"],
+    },
+    "C05": {
+        "level": "proof",
+        "kani": ["float::check_to_f32", "float::check_to_f64", "float::check_kind_f32", "float::check_kind_f64",
+                 "tofixed::check_tfh_i32", "tofixed::check_tfh_i64", "tofixed::cover_tfh"],
+        "explanation": "from_to_float_helper equals the IEEE-754 round-to-nearest-even encoder bit for bit, and to_float_kind equals the exact "
+                       "rounding of the decoded float, for every bit pattern and all 507 layouts (Kani function contracts, symbolic layout)",
+        "not_covered": ["policy glue (checked_/saturating_/wrapping_/overflowing_from_float helpers) per family: harness pending"],
+    },
+    "C06": {
+        "level": "proof",
+        "verus_units": ["round"],
+        "kani_thorough": ["round8::i8f::rounding_all_layouts", "round8::u8f::rounding_all_layouts"],
+        "explanation": "INT_MASK/FRAC_MASK/INT_LSB/FRAC_MSB, int, frac, round_to_zero and the 4 x 5 rounding forms verified (Verus) for all ten "
+                       "families with a symbolic Frac against floor/ceil/round/ties-to-even/to-zero over unbounded integers",
+        "assumptions": ["callee contracts of the no-frac methods are assumed in unit round and proved in unit nofrac; "
+                        "`frac() == 0` uses the exact-comparison contract of PartialEq<Bits> (discharged for 8-bit by kani cmp8::*_vs_int_*)"],
+    },
+    "C07": {
+        "level": "proof",
+        "verus_units": ["nofrac"],
+        "kani": _mods("rem8", ["i4f4", "i1f7", "u4f4"], REM) + ["rem8::div_euclid_region_reachable"],
+        "kani_thorough": _mods("rem8", ["i0f8", "i8f0", "i6f2", "u0f8", "u8f0", "u1f7"], REM),
+        "explanation": "checked_rem / checked_rem_euclid / rem_euclid / % verified for all ten families (Verus); the integer-divisor and "
+                       "Euclidean-division forms verified by Kani on 8-bit layouts outside the region of the known finding",
+        "bounded_parts": ["rem_int / rem_euclid_int / div_euclid(_int) forms: 8-bit layouts only (Kani twins)"],
+    },
+    "C10": {
+        "level": "proof",
+        "kani": ["codec::codec_%s" % t for t in ("i8", "u8", "i16", "u16", "i32", "u32", "i64", "u64", "i128", "u128")] + ["codec::codec_frac_independent"],
+        "explanation": "the real parity-scale-codec derive on one alias per family: encode == to_le_bytes == encoding of the bits, "
+                       "max_encoded_len == width/8, decode round trip consuming the input, every shorter input fails, byte views inverse; all bit patterns",
+        "not_covered": ["Wrapping<F> has no Encode/Decode impl in this crate; serde is feature-gated and not built"],
+    },
+    "C18": {
+        "level": "proof",
+        "kani": _mods("wrap8", ["i4f4", "i0f8", "u4f4", "u0f8"], ["arith_ops", "bit_and_shift_ops", "rounding_and_conversion"])
+                + ["wrap8::signed_only_ops", "wrap8::sum_product_fold"],
+        "kani_thorough": _mods("wrap8", ["i8f0", "u8f0"], ["arith_ops", "bit_and_shift_ops", "rounding_and_conversion"]),
+        "explanation": "every Wrapping<F> operator and method on 8-bit layouts equals the exact result modulo 2^8 and the wrapping_* form of F",
+        "bounded_parts": ["Wrapping<F> is generic; harnesses instantiate F at six 8-bit layouts; sum/product over at most 3 elements"],
     },
 }
+HOOK_COMMITS = ["52f3d97"]
